@@ -46,6 +46,28 @@ theorem deleteAll_m (sh : Nat → Nat → Bool) (s : St) (ks : List Nat) :
     simp only [deleteAll, List.foldl_cons] at ih ⊢
     rw [ih, delete_m]
 
+/-- Deleting the keys `ks` one after the other keeps exactly the bindings of the other keys. -/
+theorem foldl_del_eq_filter (m : AL Nat) (ks : List Nat) :
+    ks.foldl AL.del m = m.filter (fun p => !ks.contains p.1) := by
+  induction ks generalizing m with
+  | nil =>
+    simp only [List.foldl_nil, List.contains_nil, Bool.not_false]
+    exact (List.filter_eq_self.mpr (fun _ _ => rfl)).symm
+  | cons k ks ih =>
+    simp only [List.foldl_cons, ih, AL.del, List.filter_filter]
+    apply List.filter_congr
+    intro p _
+    by_cases h : p.1 = k
+    · simp [h]
+    · have h' : (p.1 == k) = false := by simpa using h
+      simp [h, h']
+
+theorem foldl_del_keys (m : AL Nat) : (AL.keys m).foldl AL.del m = [] := by
+  rw [foldl_del_eq_filter, List.filter_eq_nil_iff]
+  intro p hp
+  have : p.1 ∈ AL.keys m := List.mem_map_of_mem hp
+  simp [this]
+
 /-- One step: same output as the plain map, and the map component follows the plain map. -/
 theorem step_refines (sh : Nat → Nat → Bool) (s : St) (op : Op) :
     (step sh s op).2 = (specStep s.m op).2 ∧ (step sh s op).1.m = (specStep s.m op).1 := by
